@@ -936,6 +936,22 @@ def check_json_family(run, prop, replay=None):
         kind = c[:1]
         if kind not in ("E", "U") or im.startswith("SKIP"):
             continue
+        if c.startswith("EO "):
+            # oneOf types: not modelled; the round trip is judged against the sent value (C06 only)
+            if prop != "C06":
+                continue
+            n_eval += 1
+            kinds["oneof"] = kinds.get("oneof", 0) + 1
+            ikv = parse_kv(im)
+            f = c.split(" ")
+            ctx = [l for l in heads.get(f[1], []) if l.startswith("D ")] + ["JO %s %s" % (f[1], f[2])]
+            iv = ikv.get("impl", "?")
+            ij = canon_json_hex(iv) if re.fullmatch(r"[0-9a-f]+", iv) else "UNPARSEABLE"
+            if ij.startswith("UNPARSEABLE") or "__DUPLICATE_KEYS__" in ij:
+                propm.append((i, c, im, mo, ctx, "encoding of a oneOf value is not valid JSON (%s)" % iv[:80]))
+            elif canon_dump(ikv.get("back")) != canon_dump(f[3]):
+                propm.append((i, c, im, mo, ctx, "decoding the encoding of a oneOf value does not return the value"))
+            continue
         n_eval += 1
         ikv, mkv = parse_kv(im), parse_kv(mo)
         f = c.split(" ")
